@@ -170,7 +170,7 @@ fn main() {
         "C11" => run(c11::C11::new(), &args, 600, 10000),
         "C12" => run(c12::C12::new(), &args, 600, 10000),
         "C13" => run(storeprops::StoreProp::new("C13"), &args, 2500, 40000),
-        "C16" => run(storeprops::StoreProp::new("C16"), &args, 1500, 20000),
+        "C16" => run2(storeprops::StoreProp::new("C16"), c14::C14::removal(), "actor", &args, (1500, 300), (20000, 5000)),
         "C17" => run(storeprops::StoreProp::new("C17"), &args, 2000, 30000),
         "C14" => run(c14::C14::new(), &args, 500, 8000),
         "C15" => run(storeprops::StoreProp::new("C15"), &args, 2000, 30000),
